@@ -84,6 +84,32 @@ __CPROVER_assigns(__CPROVER_object_upto(chip->mute, sizeof(chip->mute)))
 __CPROVER_ensures(NUKED_INV(chip))
 ;
 
+/* the remaining register-level entry points of the core (not called by the library's wrapper): same frame, same invariant */
+Bit8u OPN2_Read(ym3438_t *chip, Bit32u port)
+__CPROVER_requires(NUKED_CHIP(chip))
+__CPROVER_requires(NUKED_INV(chip))
+__CPROVER_assigns(__CPROVER_object_whole(chip))
+__CPROVER_ensures(NUKED_INV(chip))
+;
+void OPN2_SetTestPin(ym3438_t *chip, Bit32u value)
+__CPROVER_requires(NUKED_CHIP(chip))
+__CPROVER_requires(NUKED_INV(chip))
+__CPROVER_assigns(chip->pin_test_in)
+__CPROVER_ensures(NUKED_INV(chip))
+;
+Bit32u OPN2_ReadTestPin(ym3438_t *chip)
+__CPROVER_requires(NUKED_CHIP(chip))
+__CPROVER_requires(NUKED_INV(chip))
+__CPROVER_assigns()
+__CPROVER_ensures(NUKED_INV(chip))
+;
+Bit32u OPN2_ReadIRQPin(ym3438_t *chip)
+__CPROVER_requires(NUKED_CHIP(chip))
+__CPROVER_requires(NUKED_INV(chip))
+__CPROVER_assigns()
+__CPROVER_ensures(NUKED_INV(chip))
+;
+
 #ifdef NUKED_CHIPTYPE_PER_CHIP
 /* the chip type (YM2612 DAC ladder / YM3438 status read mode) is a setting of ONE chip */
 void OPN2_SetChipType(ym3438_t *chip, Bit32u type)
